@@ -77,7 +77,7 @@ Print Assumptions C04_doc_exact.
         variants hold native leaves, an Any position, an omitted None, a caller's dialect for bytes ---- *)
 Definition ex_env : env :=
   [("Node", [("when", (TLeaf KDatetime, false)); ("blob", (TLeaf KBytearray, false)); ("raw", (TLeaf KBytes, false));
-             ("opt", (TOpt TInt, true)); ("extra", (TAny, false));
+             ("opt", (TOpt TInt, true)); ("extra", (TAny, true));
              ("next", (TOpt TSelf, true)); ("kids", (TList (TData "Node"), false));
              ("shape", (TDiscr "kind" [("c", "Circle"); ("s", "Square")], false))]);
    ("Circle", [("r", (TFloat, false)); ("at", (TLeaf KTime, false)); ("kind", (TLit "c", false))]);
